@@ -14,6 +14,8 @@ import (
 type C08Case struct {
 	Part string        `json:"part"`
 	List []model.Entry `json:"list"`
+	// Override: a format that has an (unrelated) override block, which makes Config.Get filter the contents
+	Override string `json:"override,omitempty"`
 }
 
 var c08Types = []string{"", "file", "config", "config|noreplace", "config|missingok", "dir", "symlink", "tree", "ghost", "doc", "licence", "license", "readme"}
@@ -93,6 +95,22 @@ func init() {
 					}
 				}
 			}
+			// packager-specific entries in every position, with an override block for one format
+			for _, typ := range []string{"config|noreplace", "config|missingok", "config", "ghost", "doc"} {
+				for _, f1 := range Formats {
+					for _, f2 := range Formats {
+						if f1 == f2 {
+							continue
+						}
+						for _, ov := range Formats {
+							l := []model.Entry{c08Entry(typ, f1, 1, false), c08Entry("", "", 2, false), c08Entry("config", f2, 3, false)}
+							if !yield(C08Case{Part: "override-history", List: l, Override: ov}) {
+								return
+							}
+						}
+					}
+				}
+			}
 			if env.Thorough() {
 				for _, a := range c08Types {
 					for _, ta := range tags {
@@ -116,7 +134,11 @@ func checkC08(env *engine.Env, ci any) engine.Outcome {
 	t := tree(env)
 	var out engine.Outcome
 	set := Setting{Name: "default"}
-	text := set.doc(c.List, t.Root).YAML()
+	doc := set.doc(c.List, t.Root)
+	if c.Override != "" {
+		doc["overrides"] = map[string]any{c.Override: map[string]any{"depends": []any{"only-for-" + c.Override}}}
+	}
+	text := doc.YAML()
 	var keys []string
 	// judge applies the typing oracle to one built package of format f.
 	judge := func(f string, data []byte, err error, stage string) {
